@@ -220,8 +220,13 @@ def finish(ctx: Ctx) -> int:
             f = known_sigs[sig]
             print(f"KNOWN-FINDING: property={ctx.pid} {f['what']} [sig={sig}; {len(by_sig[sig])} case(s) this run]")
     replay_dir = OUT / "replays" / ctx.pid
-    for sig in sorted(new):
+    MAXF = 25
+    for nsig, sig in enumerate(sorted(new, key=lambda s: (len(s), s))):
         vs = new[sig]
+        if nsig >= MAXF:
+            print(f"... and {len(new) - MAXF} more distinct violation signatures (no replay files written for those)")
+            rc = 1
+            break
         v = min(vs, key=lambda v: len(json.dumps(v.as_dict()["case"], sort_keys=True, default=repr)))
         replay_dir.mkdir(parents=True, exist_ok=True)
         path = replay_dir / (sig_file(sig) + ".json")
